@@ -195,6 +195,12 @@ theorem others_not_inCS {s : Script} {c : Cfg} (h : Inv s c) (t : Nat) (b n : Na
     have h4 := h.disj t u b n b' n' (Ne.symm hu) ht hb'
     omega
 
+theorem iters_eq (r : Req) (b : Nat) (h : b + r.len < W) : iters r b = r.len := by
+  unfold iters satAdd
+  split
+  · simp [h]
+  · rfl
+
 theorem fused_some {s : Script} (hf : Fused s) {p v} (h : s p = .some v) : NoNoneBefore s p := by
   intro i hi
   exact hf i p (Nat.le_of_lt hi) (by simp [h, IsSome])
